@@ -3,6 +3,7 @@ package vegeta_test
 import (
 	"bufio"
 	"bytes"
+	"encoding/json"
 	"fmt"
 	"hash/fnv"
 	"io"
@@ -28,6 +29,7 @@ type c11Case struct {
 }
 
 type c11Finding struct {
+	id     string
 	q      float64
 	need   float64 // rank tolerance that would have been needed
 	tau    float64
@@ -51,7 +53,7 @@ func runC11(c c11Case) error {
 	return err
 }
 
-// evalC11 returns findings that match the listed known finding (p50 resolution)
+// evalC11 returns findings that match the listed known finding (t-digest resolution)
 // and an error for anything else.
 func evalC11(c c11Case) ([]c11Finding, error) {
 	n := len(c.Lat)
@@ -114,9 +116,12 @@ func evalC11(c c11Case) ([]c11Finding, error) {
 		}
 		if need > tau {
 			msg := fmt.Sprintf("%s: %s = %d has rank error %.2f > 1 + 1%% of n = %.2f (ideal rank %.1f)", head, p.name, p.v, need, tau, p.q*float64(n))
-			// listed known finding: t-digest resolution at the median (two centroid widths)
-			if p.q == 0.50 && need <= 1+0.032*float64(n) && vh.Known("p50-resolution") {
-				known = append(known, c11Finding{q: p.q, need: need, tau: tau, detail: msg})
+			// listed known finding: the resolution of the t-digest (compression 100). A centroid that ends up around
+			// quantile q holds up to pi/100 * sqrt(q(1-q)) * n samples (it was formed from at most q*n samples below and
+			// (1-q)*n above), neighbouring centroids overlap, and the estimate interpolates between their centres:
+			// rank errors of up to about 2.5 such widths occur, 3.5 are covered by the entry.
+			if need <= 1+3.5*math.Pi/100*math.Sqrt(p.q*(1-p.q))*float64(n) && vh.Known("tdigest-resolution") {
+				known = append(known, c11Finding{id: "tdigest-resolution", q: p.q, need: need, tau: tau, detail: msg})
 				continue
 			}
 			return known, fmt.Errorf("%s", msg)
@@ -207,6 +212,13 @@ func c11Gen(t *rapid.T, maxN int) c11Case {
 		few[i] = int64(rng.float() * scale)
 	}
 	gap := math.Exp(rapid.Float64Range(0, math.Log(1e9)).Draw(t, "gap"))
+	// weeks-long latencies (what a results file may hold): odd nanosecond counts from 2^52 up to 2^53, the last range in
+	// which the estimator's float64 still holds every integer. Only the all-equal clause is stated there: between
+	// two different values of that size the estimator's interpolation (products of value and weight beyond 2^53)
+	// wobbles by a nanosecond, which is the resolution of float64 and not a statement about ranks or order.
+	if c.Family == "constant" && rapid.IntRange(0, 3).Draw(t, "weeks") == 0 {
+		scale = float64(rapid.SampledFrom([]int64{1<<52 + 1, 1<<52 + 3, 1<<53 - 1, 1<<52 + 12345677, 1<<52 - 1, 1 << 52}).Draw(t, "long"))
+	}
 	for i := range c.Lat {
 		var v float64
 		switch c.Family {
@@ -358,16 +370,40 @@ func c11Run(t *rapid.T, c c11Case) {
 	)
 	vh.Guard("C11", "C11.percentiles", c, func() { known, err = evalC11(c) })
 	for _, k := range known {
-		vh.KnownHit("p50-resolution", k.detail)
+		vh.KnownHit(k.id, k.detail)
 	}
 	if err != nil {
 		vh.Fail(t, "C11", "C11.percentiles", c, err)
 	}
 }
 
+// c11GenRuns: a few runs of equal latencies, one after the other, some followed by a Close (a periodic report that
+// falls between two phases of an attack): what the estimator has summarised by then stays summarised.
+func c11GenRuns(t *rapid.T) c11Case {
+	c := c11Case{Family: "runs", Order: "runs"}
+	vals := rapid.Permutation([]int64{0, 3, 4, 5, 17, 1000, 1e6, 1e9}).Draw(t, "vals")
+	for i, nruns := 0, rapid.IntRange(2, 6).Draw(t, "nruns"); i < nruns; i++ {
+		l := rapid.IntRange(1, 60).Draw(t, fmt.Sprintf("len%d", i))
+		if rapid.IntRange(0, 3).Draw(t, fmt.Sprintf("long%d", i)) == 0 {
+			l = rapid.IntRange(100, 2000).Draw(t, fmt.Sprintf("llen%d", i))
+		}
+		for j := 0; j < l; j++ {
+			c.Lat = append(c.Lat, vals[i])
+		}
+		if rapid.Bool().Draw(t, fmt.Sprintf("close%d", i)) {
+			c.Closes = append(c.Closes, len(c.Lat))
+		}
+	}
+	return c
+}
+
 func TestC11Percentiles(t *testing.T) {
 	vh.Regress(t, "C11")
 	vh.Check(t, 300, 5000, func(t *rapid.T) {
+		if rapid.IntRange(0, 9).Draw(t, "runs") == 0 {
+			c11Run(t, c11GenRuns(t))
+			return
+		}
 		c11Run(t, c11Gen(t, 5000))
 	})
 }
@@ -393,3 +429,66 @@ func TestC11PercentilesLarge(t *testing.T) {
 func init() {
 	vh.RegisterReplay("C11.percentiles", vh.Replayer(runC11))
 }
+
+// c11Huge is a sample of ten million latencies, rebuilt from its parameters: from such counts on
+// the centroids in front of the tail weigh thousands of samples each, and an estimator that treats
+// the tail differently from the body has a seam there.
+type c11Huge struct {
+	Family string // exponential, lognormal
+	Order  string // sorted, reversed, drawn
+	N      int
+	Seed   uint64
+	Scale  float64
+}
+
+func (h c11Huge) latencies() []int64 {
+	rng := xorshift(h.Seed | 1)
+	lat := make([]int64, h.N)
+	for i := range lat {
+		var v float64
+		if h.Family == "lognormal" {
+			v = h.Scale / 100 * math.Exp(rng.norm()*1.5)
+		} else {
+			v = -math.Log(1-rng.float()*0.999999) * h.Scale / 10
+		}
+		lat[i] = int64(math.Min(v, 4e18))
+	}
+	switch h.Order {
+	case "sorted":
+		sort.Slice(lat, func(i, j int) bool { return lat[i] < lat[j] })
+	case "reversed":
+		sort.Slice(lat, func(i, j int) bool { return lat[i] > lat[j] })
+	}
+	return lat
+}
+
+func runC11Huge(h c11Huge) error {
+	if h.N < 1 || h.N > 1<<26 {
+		return fmt.Errorf("bad case")
+	}
+	_, err := evalC11(c11Case{Family: h.Family + "-huge", Order: h.Order, Lat: h.latencies()})
+	return err
+}
+
+func TestC11PercentilesHuge(t *testing.T) {
+	if !vh.Thorough() {
+		t.Skip("thorough tier only (each case holds some hundred MB)")
+	}
+	vh.ShrinkTime("1s") // a case takes ten seconds and more; its parameters are all there is to minimise
+	vh.Check(t, 0, 2, func(t *rapid.T) {
+		h := c11Huge{Family: rapid.SampledFrom([]string{"exponential", "exponential", "lognormal"}).Draw(t, "family"),
+			Order: rapid.SampledFrom([]string{"sorted", "reversed", "sorted", "drawn"}).Draw(t, "order"),
+			N:     rapid.IntRange(9e6, 16e6).Draw(t, "n"), Seed: rapid.Uint64().Draw(t, "seed"),
+			Scale: math.Exp(rapid.Float64Range(math.Log(1e6), math.Log(1e10)).Draw(t, "scale"))}
+		sig, _ := json.Marshal(h)
+		vh.Case("C11.huge", string(sig), true, h.Family, "order:"+h.Order)
+		vh.Sample("C11.huge", true, h)
+		var err error
+		vh.Guard("C11", "C11.huge", h, func() { err = runC11Huge(h) })
+		if err != nil {
+			vh.Fail(t, "C11", "C11.huge", h, err)
+		}
+	})
+}
+
+func init() { vh.RegisterReplay("C11.huge", vh.Replayer(runC11Huge)) }
